@@ -9,6 +9,13 @@ import (
 
 // C14: text formats round-trip and mean what the published format rules say.
 
+// Known-finding modes. They are switched on only by the neutralising overlay of
+// an *open* entry of /verif/known_findings.json whose witness (VF_F5, VF_F6)
+// still fails on the tree under check; the oracles below then accept, besides
+// the published behaviour, exactly the recorded deviation and nothing else.
+const vKnownF5 = false // ReadUnified reads an omitted count as 0
+const vKnownF6 = false // empty ranges at line L are spelled "L,0" / "L,L-1"
+
 func vMkDiffLines(n int, name string) []string {
 	out := make([]string, n)
 	for i := range out {
@@ -259,6 +266,9 @@ func vApplyUnified(text []byte, left []string) ([]string, bool) {
 		start := ls - 1
 		if lc == 0 {
 			start = ls // empty range: the hunk sits after line ls
+			if vKnownF6 && rc > 0 && lpos+(rs-1-len(out)) == ls-1 {
+				start = ls - 1 // recorded deviation: the range names the line after the gap
+			}
 		}
 		if start < lpos || start+lc > len(left) {
 			return nil, false
@@ -267,7 +277,7 @@ func vApplyUnified(text []byte, left []string) ([]string, bool) {
 			out = append(out, left[lpos])
 		}
 		if rc == 0 {
-			if rs != len(out) {
+			if rs != len(out) && !(vKnownF6 && rs == len(out)+1) {
 				return nil, false
 			}
 		} else if rs != len(out)+1 {
@@ -321,6 +331,9 @@ func vCtxRange(b []byte, n int) (int, bool) {
 	}
 	switch {
 	case n == 0:
+		if vKnownF6 && has2 && hi == lo-1 {
+			return lo - 1, true // recorded deviation: "L,L-1"
+		}
 		return lo, !has2
 	case n == 1:
 		return lo - 1, !has2
@@ -426,6 +439,42 @@ func vApplyContext(text []byte, left []string) ([]string, bool) {
 
 // ---------- harnesses ----------
 
+// vF5Affects reports whether the recorded deviation F5 is switched on and
+// applies to these chunks (some side of some chunk is exactly one line, which
+// Unified writes without a count).
+func vF5Affects(chunks []*Chunk) bool {
+	if !vKnownF5 {
+		return false
+	}
+	for _, c := range chunks {
+		if c.LEnd-c.LStart == 1 || c.REnd-c.RStart == 1 {
+			return true
+		}
+	}
+	return false
+}
+
+// vSameParsedUnified: got is what ReadUnified returned for the text Unified
+// wrote for want.
+func vSameParsedUnified(want, got []*Chunk) bool {
+	if !vF5Affects(want) {
+		return vSameChunks(want, got, true)
+	}
+	// recorded deviation F5: a one-line side comes back as an empty range
+	adj := make([]*Chunk, len(want))
+	for i, c := range want {
+		cc := *c
+		if cc.LEnd-cc.LStart == 1 {
+			cc.LEnd = cc.LStart
+		}
+		if cc.REnd-cc.RStart == 1 {
+			cc.REnd = cc.RStart
+		}
+		adj[i] = &cc
+	}
+	return vSameChunks(adj, got, true)
+}
+
 func vFormat(f FormatFunc, chunks []*Chunk, fi *FileInfo) []byte {
 	var buf bytes.Buffer
 	err := f(&buf, chunks, fi)
@@ -517,14 +566,16 @@ func VH_mdiff_RoundTrip() {
 		if err != nil {
 			return
 		}
-		vAssert(vSameChunks(d.Chunks, p.Chunks, true), "ReadUnified returns the same chunks (ranges and edits)")
+		vAssert(vSameParsedUnified(d.Chunks, p.Chunks), "ReadUnified returns the same chunks (ranges and edits)")
 		if fi != nil {
 			vAssert(p.FileInfo != nil && p.FileInfo.Left == fi.Left && p.FileInfo.Right == fi.Right, "header file names survive")
 		} else {
 			vAssert(p.FileInfo == nil, "no header, no FileInfo")
 		}
-		again := vFormat(Unified, p.Chunks, p.FileInfo)
-		vAssert(string(again) == string(text), "re-formatting the parsed unified diff reproduces the text")
+		if !vF5Affects(d.Chunks) {
+			again := vFormat(Unified, p.Chunks, p.FileInfo)
+			vAssert(string(again) == string(text), "re-formatting the parsed unified diff reproduces the text")
+		}
 	}
 }
 
@@ -552,10 +603,12 @@ func VH_mdiff_Git() {
 	}
 	vAssert(len(ps) == 2, "ReadGitPatch returns one patch per file")
 	if len(ps) == 2 {
-		vAssert(vSameChunks(d.Chunks, ps[0].Chunks, true), "first patch has the first file's chunks")
-		vAssert(vSameChunks(d2.Chunks, ps[1].Chunks, true), "second patch has the second file's chunks")
+		vAssert(vSameParsedUnified(d.Chunks, ps[0].Chunks), "first patch has the first file's chunks")
+		vAssert(vSameParsedUnified(d2.Chunks, ps[1].Chunks), "second patch has the second file's chunks")
 		vAssert(ps[0].FileInfo.Left == "a/f" && ps[1].FileInfo.Right == "b/g", "git patches keep their file names")
-		vAssert(string(vFormat(Unified, ps[0].Chunks, ps[0].FileInfo)) == string(text), "re-formatting the first git patch reproduces its unified text")
+		if !vF5Affects(d.Chunks) {
+			vAssert(string(vFormat(Unified, ps[0].Chunks, ps[0].FileInfo)) == string(text), "re-formatting the first git patch reproduces its unified text")
+		}
 	}
 }
 
@@ -579,7 +632,7 @@ func VH_mdiff_LongLine() {
 	p, err := ReadUnified(bytes.NewReader(text))
 	vCover("long-line")
 	vAssert(err == nil, "ReadUnified accepts a long line")
-	if err == nil {
+	if err == nil && !vF5Affects(d.Chunks) {
 		vAssert(string(vFormat(Unified, p.Chunks, p.FileInfo)) == string(text), "a long line round-trips through the unified format")
 	}
 	nt := vFormat(Normal, d.Chunks, nil)
